@@ -237,8 +237,6 @@ class Gen:
         if kind != "page":
             sec["buffered"] = r.random() < 0.3
             sec["filtered"] = r.random() < 0.25
-            if sec["buffered"] and sec["cached"] and kind == "ablock" and not o["allow_inline_buffered"]:
-                sec["buffered"] = False
         if sec["cached"]:
             if r.random() < 0.35:
                 sec["key"] = self.parts(inner_vars, sec["label"], o["unique_keys"])
@@ -329,27 +327,6 @@ class Gen:
         return td
 
 
-def fix_inline_buffered(td, allow):
-    """without `allow`, avoid the combinations on which the known inline-decorator defect shows: a cached+buffered
-    nested def whose return value is filtered at a call site, a cached+buffered anonymous block"""
-    if allow:
-        return
-    defs = {s["name"]: s for s in all_sections(td) if s["kind"] in ("topdef", "nested")}
-
-    def walk(nodes):
-        for n in nodes:
-            if n[0] == "c":
-                d = defs.get(n[1])
-                if d is not None and d["kind"] == "nested" and d["cached"] and d["buffered"]:
-                    n[3] = False
-            elif n[0] in ("d", "b"):
-                s = n[1]
-                if s["kind"] == "ablock" and s["cached"] and s["buffered"]:
-                    s["buffered"] = False
-                walk(s["body"])
-    walk(td["page"]["body"])
-
-
 URI_FAMILIES = [["/a-b.html", "/a_b.html", "/a.b.html"], ["/x/y.html", "/x_y.html", "/x-y.html"],
                 ["/p q.txt", "/p+q.txt", "/p_q.txt"], ["/m.html", "/m_html", "/m-html"]]
 
@@ -357,11 +334,10 @@ URI_FAMILIES = [["/a-b.html", "/a_b.html", "/a.b.html"], ["/x/y.html", "/x_y.htm
 def gen_world(rng, backend, k):
     """a case: templates + history"""
     r = rng
-    allow_fb = r.random() < 0.12
     allow_fa = r.random() < 0.12
     nt = r.choice([1, 1, 1, 2, 2, 3])
     collide = nt > 1 and r.random() < 0.25 and backend != "dogpile"     # dogpile worlds have one region set per template
-    opts = {"types": ["ta", "tb"], "free_args": True, "unique_keys": False, "allow_inline_buffered": allow_fb,
+    opts = {"types": ["ta", "tb"], "free_args": True, "unique_keys": False,
             "always_type": False, "tmpl_type": None}
     region_key = "type"
     if backend.startswith("beaker"):
@@ -383,7 +359,6 @@ def gen_world(rng, backend, k):
     for u in uris:
         g = Gen(r, dict(opts))
         td = g.template(u)
-        fix_inline_buffered(td, allow_fb)
         template_source(td)
         tds.append(td)
     if backend == "dogpile":
@@ -394,7 +369,7 @@ def gen_world(rng, backend, k):
                 if s["cached"] and s["kind"] != "page" and r.random() < 0.3:
                     s["attrs"].append(["cache_region", [["l", "r1"]]])
     case = {"backend": backend, "pass_context": backend == "rec" and r.random() < 0.5, "region_key": region_key,
-            "has_set": _BEAKER_SET[0] if backend.startswith("beaker") else True, "templates": tds, "history": []}
+            "templates": tds, "history": []}
     case["history"] = gen_history(r, case, allow_fa)
     return case
 
@@ -451,7 +426,7 @@ def gen_history(r, case, allow_early_inval):
             ops.append(["C", t, r.choice(closures + ["noclosure"])])
         elif c < 0.8:
             ops.append(["X", t, r.choice(keys + ["nokey"]), kw()])
-        elif c < 0.88 and case["backend"] != "dogpile" and (case.get("has_set", True) or r.random() < 0.15):
+        elif c < 0.88 and case["backend"] != "dogpile":
             ops.append(["S", t, r.choice(keys + ["free"]), r.choice(["SET1", "SET2", ""]), kw()])
         elif c < 0.94:
             ops.append(["G", t, r.choice(keys + ["free", "nokey"]), kw()])
@@ -1010,8 +985,7 @@ def w_items(nodes, defs, budget):
 
 
 def w_case(case):
-    toks = ["cache", "run", "1" if case["pass_context"] else "0", "1" if case.get("has_set", True) else "0",
-            enc(case["region_key"]), str(len(case["templates"]))]
+    toks = ["cache", "run", "1" if case["pass_context"] else "0", enc(case["region_key"]), str(len(case["templates"]))]
     for td in case["templates"]:
         template_source(td)
         defs = {s["name"]: s for s in all_sections(td) if s["kind"] in ("topdef", "nested")}
@@ -1055,8 +1029,6 @@ def parse_model(line):
                 resp, i = ("got", dec(t[2])), 3
         elif t[0] == "u":
             resp, i = None, 1
-        elif t[0] == "n":
-            resp, i = ("raised", "NotImplementedError"), 1
         else:
             resp, i = ("noTemplate",), 1
         assert t[i] == "T"
@@ -1300,15 +1272,6 @@ def distinct_ids_variant(case):
     return c
 
 
-def no_inline_buffered_variant(case):
-    c = copy.deepcopy(case)
-    for td in c["templates"]:
-        for s in all_sections(td):
-            if s["kind"] in ("nested", "ablock") and s["cached"] and s["buffered"]:
-                s["buffered"] = False
-    return c
-
-
 def no_early_invalidation_variant(case):
     c = copy.deepcopy(case)
     c["history"] = drop_early_invalidations(c, c["history"])
@@ -1316,13 +1279,6 @@ def no_early_invalidation_variant(case):
 
 
 KNOWN_VARIANTS = []      # (site, variant function) - filled below
-
-
-def no_beaker_set_variant(case):
-    c = copy.deepcopy(case)
-    if c["backend"].startswith("beaker"):
-        c["history"] = [op for op in c["history"] if op[0] != "S"]
-    return c
 
 
 def colliding_only_by_nonword(case):
@@ -1333,9 +1289,7 @@ def colliding_only_by_nonword(case):
 
 KNOWN_VARIANTS = [
     ("cache-id-collision-nonword-chars", lambda c: distinct_ids_variant(c) if colliding_only_by_nonword(c) else c),
-    ("beaker-impl-set-not-implemented", no_beaker_set_variant),
     ("region-args-frozen-by-early-invalidate", no_early_invalidation_variant),
-    ("inline-cached-section-ignores-buffered", no_inline_buffered_variant),
 ]
 
 
@@ -1411,7 +1365,6 @@ def report_violation(ctx, stream, case, diff, seen_sites):
     summ = case_summary(small)
     summ["input"] = " || ".join(t["source"] for t in summ["templates"]) + " @@ " + repr(small["history"])
     summ["colliding_module_ids"] = colliding_only_by_nonword(small)
-    summ["backend_is_beaker"] = small["backend"].startswith("beaker")
     ctx.violation(site, summ, d2, stream)
 
 
@@ -1511,7 +1464,6 @@ def f5_case(u1, u2, backend="rec"):
             args = [["region", "r0"]]
         return {"uri": uri, "cache_args": args, "enabled": True, "has_page": True, "page": page}
     return {"backend": backend, "pass_context": False, "region_key": "region" if backend == "dogpile" else "type",
-            "has_set": _BEAKER_SET[0] if backend.startswith("beaker") else True,
             "templates": [td(u1, "first "), td(u2, "second ")],
             "history": [["R", 0, {"x": "1", "y": "1"}], ["R", 1, {"x": "2", "y": "2"}], ["R", 0, {"x": "3", "y": "3"}]]}
 
@@ -1558,12 +1510,6 @@ def run(ctx):
             ctx.notes.append("back end %s skipped: %s" % (be, why))
             ctx.log("back end %s skipped: %s" % (be, why))
     ctx.notes.append("back ends exercised: " + ", ".join(backends))
-    # does mako's Beaker implementation override CacheImpl.set?  The model is told what the translator read from
-    # mako/ext/beaker_cache.py (Generated/Cache.lean: beakerImplDefinesSet); the oracle stream oracle.backend_api
-    # decides on the running code whether that is a violation.
-    _BEAKER_SET[0] = ctx.driver().ask("cache const") == "1"
-    if not _BEAKER_SET[0]:
-        ctx.notes.append("BeakerCacheImpl does not define `set` (Generated/Cache.lean): Beaker histories contain few `set` ops")
     if "dogpile" in backends:
         try:
             a, b = dogpile_shared_region_probe()
@@ -1589,7 +1535,6 @@ def run(ctx):
         raise err
 
 
-_BEAKER_SET = [True]
 
 
 def dogpile_shared_region_probe():
